@@ -99,6 +99,7 @@ Pool make_pool(uint64_t pool_seed);
 Plan gen_hist_plan(uint64_t seed, bool oom, int focus = 0);
 const Pool &pool_for_seed(uint64_t seed);
 GrammarSpec gen_grammar(Rng &r);
+GrammarSpec gen_family_grammar(Rng &r);
 std::vector<int> gen_sentence(Rng &r, const GrammarSpec &g, int max_len);
 const std::vector<GrammarSpec> &handwritten_good();
 const std::vector<GrammarSpec> &handwritten_bad();
